@@ -107,6 +107,8 @@ def diff_class(schema, doc, want, got, got_is="python"):
             return "absent-optional-constant-materialised", path
         if _at(got, path) in ([], {}) and got_is == "python-vs-go":
             return "optional-empty-collection-omitted-by-go", path
+    if what == "changed" and f is not None and f["null"] and f["def"]["j"] != "none" and _at(want, path) is None:
+        return "explicit-null-replaced-by-default", path      # a nullable field with a declared default, given as null
     if what == "changed" and node is not None:
         # classes that name the cause rather than the place (they occur at every position)
         wv, gv = _at(want, path), _at(got, path)
